@@ -125,6 +125,7 @@ class Spec:
 
 def case_cfg(open_line):
     """(src, page size in force, lower bound of the page size, mode) of a case's `open` line"""
+    if open_line.startswith("fsopen"): return open_case_cfg(open_line)   # round4-open
     kv = dict(x.split("=", 1) for x in open_line.split()[1:] if "=" in x)
     src = (bytes.fromhex(kv["hex"]) if kv["hex"] != "-" else b"") * int(kv.get("rep", "1"))
     ps = int(kv["ps"])
@@ -383,6 +384,303 @@ def mem_nontrivial(out):
 # END round4-mem
 
 
+# BEGIN round4-open
+# esl_buffer_Open / OpenFile / OpenPipe / Close: decision logic over a file system given as a parameter
+# (model lean/EaselModel/Buffer/OpenFile.lean, driver op `fsopen` in OpenDriver.lean, harness block round4-open)
+import re as _re, gzip as _gzip, os as _os
+K_GZ = "C05:open:gz-suffix-indexes-filename"
+OPEN_THEOREMS = ["EaselModel.Props.C05." + t for t in (
+    "open_finds_iff", "open_not_found", "open_uses_first", "splitColon_spec", "openFile_mode_spec", "openFile_pagesize_clamp", "openFile_not_found",
+    "openPipe_spec", "open_semantics_mode_independent", "open_gz_semantics", "close_releases_exactly_once", "openers_release_exactly_once",
+    "asStr_nul_terminated", "asStr_strlen_iff", "open_cwd_never_faults", "open_gz_fault_iff", "open_gz_fault_witness", "open_gz_env_never_recognised",
+    "open_fixed_never_faults", "open_fixed_gz_iff_suffix")]
+OPEN_STATE = {"uses_path": False, "slurp": 4194304, "page": 4096}
+
+
+def _open_parse_src(src):
+    """constants and the two decisive source lines of the opening logic, out of the working tree; raises if a pattern is gone"""
+    h = open(_os.path.join(src, "esl_buffer.h")).read()
+    c = open(_os.path.join(src, "esl_buffer.c")).read()
+    def need(pat, text, what):
+        m = _re.search(pat, text)
+        if not m: raise RuntimeError("open_generated: pattern not found in the working tree: " + what)
+        return m
+    page = int(need(r"#define\s+eslBUFFER_PAGESIZE\s+(\d+)", h, "#define eslBUFFER_PAGESIZE").group(1))
+    slurp = int(need(r"#define\s+eslBUFFER_SLURPSIZE\s+(\d+)", h, "#define eslBUFFER_SLURPSIZE").group(1))
+    m = need(r"if \(bf->pagesize < (\d+)\)\s+bf->pagesize = (\d+);", c, "lower clamp of bf->pagesize")
+    if m.group(1) != m.group(2): raise RuntimeError("open_generated: lower clamp of bf->pagesize is not a clamp")
+    lo = int(m.group(1))
+    m = need(r"if \(bf->pagesize > (\d+)\)\s+bf->pagesize = (\d+);", c, "upper clamp of bf->pagesize")
+    if m.group(1) != m.group(2): raise RuntimeError("open_generated: upper clamp of bf->pagesize is not a clamp")
+    hi = int(m.group(1))
+    need(r"if\s+\(filesize != -1 && filesize <= eslBUFFER_SLURPSIZE\)\s*\n\s*\{ if \(\(status = buffer_init_file_slurped\(bf, filesize\)\)", c, "slurp test of esl_buffer_OpenFile")
+    need(r"else if \(filesize > eslBUFFER_SLURPSIZE\)\s*\n\s*\{ if \(\(status = buffer_init_file_mmap\(bf, filesize\)\)", c, "mmap test of esl_buffer_OpenFile")
+    need(r"bf->pagesize\s*=\s*fileinfo\.st_blksize;", c, "bf->pagesize = st_blksize")
+    need(r"n = strlen\(path\);", c, "n = strlen(path) in esl_buffer_Open")
+    m = need(r"if \(n > 3 && strcmp\((filename|path)\+n-3, \"\.gz\"\) == 0\)", c, ".gz test of esl_buffer_Open")
+    return dict(page=page, slurp=slurp, lo=lo, hi=hi, uses_path=(m.group(1) == "path"))
+
+
+def _open_sync(ctx):
+    """follow the working tree (fixed / unfixed .gz test, thresholds); a tree whose patterns are gone has already failed the
+    obligation `generated`: the cases are then generated for the last known text"""
+    if ctx is None: return
+    try: OPEN_STATE.update({k: v for k, v in _open_parse_src(ctx.src).items() if k in OPEN_STATE})
+    except Exception: pass
+
+
+def open_generated(ctx):
+    k = _open_parse_src(ctx.src)
+    OPEN_STATE.update(uses_path=k["uses_path"], slurp=k["slurp"], page=k["page"])
+    txt = """/-! GENERATED by props/c05.py `open_generated` from esl_buffer.h / esl_buffer.c of the working tree — do not edit.
+    Constants of the opening logic of esl_buffer.c. -/
+namespace EaselModel.Buffer.OpenConsts
+
+/-- `#define eslBUFFER_PAGESIZE` (esl_buffer.h) -/
+def pageSize : Nat := %d
+/-- `#define eslBUFFER_SLURPSIZE` (esl_buffer.h) -/
+def slurpSize : Nat := %d
+/-- `if (bf->pagesize < LO) bf->pagesize = LO;` (esl_buffer_OpenFile) -/
+def clampLo : Nat := %d
+/-- `if (bf->pagesize > HI) bf->pagesize = HI;` (esl_buffer_OpenFile) -/
+def clampHi : Nat := %d
+/-- the `.gz` test of esl_buffer_Open is `strcmp(path+n-3, ".gz")` (true) or `strcmp(filename+n-3, ".gz")` (false) -/
+def gzTestUsesPath : Bool := %s
+
+end EaselModel.Buffer.OpenConsts
+""" % (k["page"], k["slurp"], k["lo"], k["hi"], "true" if k["uses_path"] else "false")
+    return {"EaselModel/Buffer/OpenConsts.lean": txt}
+
+
+def open_line(name, envk, dirs, ps, files):
+    """files: list of (path, unit, rep, plain-or-None)"""
+    ents = []
+    for (path, unit, rep, plain) in files:
+        e = path.hex() + ":" + hx(unit) + ("*%d" % rep if rep != 1 else "")
+        if plain is not None: e += ":" + hx(plain)
+        ents.append(e)
+    return "fsopen name=%s env=%d dirs=%s ps=%d files=%s" % (name.hex(), envk, hx(dirs), ps, ",".join(ents) if ents else "-")
+
+
+def open_parse(line):
+    kv = dict(x.split("=", 1) for x in line.split()[1:] if "=" in x)
+    unhex = lambda t: b"" if t == "-" else bytes.fromhex(t)
+    fs = {}
+    if kv["files"] != "-":
+        for e in kv["files"].split(","):
+            parts = e.split(":")
+            u = parts[1].split("*")
+            path = unhex(parts[0])
+            if path not in fs:      # List.lookup: the first entry wins
+                fs[path] = (unhex(u[0]), int(u[1]) if len(u) > 1 else 1, unhex(parts[2]) if len(parts) > 2 else None)
+    return dict(name=unhex(kv["name"]), envk=int(kv["env"]), dirs=unhex(kv["dirs"]), ps=int(kv["ps"]), fs=fs)
+
+
+def open_oracle(line):
+    """python copy of the decision logic of esl_buffer_Open (independent oracle of the monitor)"""
+    q = open_parse(line)
+    name, fs = q["name"], q["fs"]
+    path, via = None, None
+    if name in fs: path, via = name, "cwd"
+    elif q["envk"] == 2:
+        for i, d in enumerate(q["dirs"].split(b":")):
+            if d + b"/" + name in fs:
+                path, via = d + b"/" + name, "env%d" % i
+                break
+    if path is None: return dict(st="enotfound", via="none")
+    n = len(path)
+    s = path if OPEN_STATE["uses_path"] else name
+    isgz = False
+    if n > 3:
+        if n - 3 > len(s): return dict(st="fault", via=via, path=path)
+        isgz = s[n - 3:] == b".gz"
+    unit, rep, plain = fs[path]
+    if isgz:
+        ps = q["ps"] if q["ps"] > 0 else OPEN_STATE["page"]
+        out, ok = (plain, True) if plain is not None else (b"", False)
+        if len(out) < ps:
+            if not ok: return dict(st="fail", via=via, path=path)
+            return dict(st="ok", via=via, path=path, src=out, mode="pipe", mode_is="allfile", ps=ps, gz=True)
+        return dict(st="ok", via=via, path=path, src=out, mode="pipe", mode_is="pipe", ps=ps, gz=True)
+    ps = q["ps"] if q["ps"] > 0 else 4096        # st_blksize of the scratch file system (as for the existing `open ps=0`)
+    size = len(unit) * rep
+    m = "allfile" if size <= OPEN_STATE["slurp"] else "mmap"
+    return dict(st="ok", via=via, path=path, src=unit * rep, mode=m, mode_is=m, ps=ps, gz=False)
+
+
+def open_case_cfg(line):
+    r = open_oracle(line)
+    ps0 = open_parse(line)["ps"]
+    if r["st"] != "ok": return b"", 4096, 512, "allfile"
+    return r["src"], r["ps"], (ps0 if ps0 > 0 else 512), r["mode"]
+
+
+def open_monitor(prop, case, out):
+    """the implementation's answer to `fsopen` against the python oracle; NotImplemented = go on with the ordinary monitor"""
+    line = case["ops"][0]
+    if not line.startswith("fsopen"): return NotImplemented
+    if not out or out[0].startswith(("fault", "atexit")): return None          # a death is reported by the engine
+    r = open_oracle(line)
+    got = out[0]
+    if r["st"] == "fault":
+        return Failure("monitor", "esl_buffer_Open reads filename[%d] of a %d byte string (found through the directory list) and answered %r" % (len(r["path"]) - 3, len(open_parse(line)["name"]), got[:60]), key=case.get("known_key"))
+    if r["st"] != "ok":
+        want = "%s bf=1 msg=1 unset=1" % r["st"]
+        if got != want: return Failure("monitor", "esl_buffer_Open: answered %r, documented result is %r (status, live buffer in UNSET state with a message)" % (got[:80], want))
+        return None
+    f = dict(x.split("=", 1) for x in got.split() if "=" in x)
+    if not got.startswith("ok ") or f.get("mode") != r["mode_is"] or f.get("file") != hx(r["path"]) or f.get("ps") != str(r["ps"]):
+        return Failure("monitor", "esl_buffer_Open: answered %r; the file to open is %r (found: %s), mode %s, page size %d" % (got[:120], r["path"], r["via"], r["mode_is"], r["ps"]))
+    return NotImplemented
+
+
+def open_mk(prop, name, line, ops, **kw):
+    r = open_oracle(line)
+    d = dict(name=name, ops=[line] + (ops if r["st"] == "ok" else []), sticky=1, mode="fsopen", ps=open_parse(line)["ps"], **kw)
+    if r["st"] != "ok": d["nomonitor"] = True
+    return d
+
+
+def _gz(plain): return _gzip.compress(plain, mtime=0)
+
+
+def open_corpus(prop, ctx=None):
+    if _os.environ.get("C05_NO_OPEN"): return []          # timing aid: the check without the fsopen cases
+    _open_sync(ctx)
+    out = []
+    T = b"ab cd\nef\r\ngh"
+    G = _gz(T)
+    lineops = ["getline", "gettoken sep=20", "fetchlinestr", "fetchtokenstr sep=20", "getline", "get"]
+    def F(path, content, plain=None, rep=1): return (path, content, rep, plain)
+    # the search: cwd, 1st/2nd/last directory, several (first wins), nowhere; variable NULL / unset / empty / with empty elements
+    out.append(open_mk(prop, "open-cwd", open_line(b"f", 0, b"", 0, [F(b"f", T)]), lineops))
+    out.append(open_mk(prop, "open-cwd-beats-env", open_line(b"f", 2, b"a:b", 0, [F(b"a/f", b"wrong\n"), F(b"f", T)]), lineops))
+    out.append(open_mk(prop, "open-env-first", open_line(b"f", 2, b"a:b", 0, [F(b"a/f", T)]), lineops))
+    out.append(open_mk(prop, "open-env-second", open_line(b"f", 2, b"a:b", 3, [F(b"b/f", T), F(b"a/g", b"x")]), lineops))
+    out.append(open_mk(prop, "open-env-last", open_line(b"f", 2, b"nonexistent:a::b:d2", 2, [F(b"d2/f", T)]), lineops))
+    out.append(open_mk(prop, "open-env-first-wins", open_line(b"f", 2, b"a:b:d1", 0, [F(b"d1/f", b"third\n"), F(b"b/f", T), F(b"x/f", b"no\n")]), lineops))
+    out.append(open_mk(prop, "open-env-parent", open_line(b"f", 2, b"..", 0, [F(b"../f", T)]), lineops))
+    out.append(open_mk(prop, "open-env-noslash-normalisation", open_line(b"f", 2, b"x:b/", 0, [F(b"b//f", T)]), lineops))
+    out.append(open_mk(prop, "open-name-with-dir", open_line(b"s/f", 2, b"a", 0, [F(b"a/s/f", T)]), lineops))
+    for envk, dirs, nm in ((0, b"a", "null"), (1, b"a", "unset"), (2, b"", "empty"), (2, b":", "colon"), (2, b"b:d1", "elsewhere")):
+        out.append(open_mk(prop, "open-notfound-" + nm, open_line(b"f", envk, dirs, 0, [F(b"a/f", T)]), []))
+    out.append(open_mk(prop, "open-notfound-nofiles", open_line(b"f", 2, b"a", 0, []), []))
+    out.append(open_mk(prop, "open-empty-file", open_line(b"f", 0, b"", 0, [F(b"f", b"")]), ["getline", "get", "getoffset"]))
+    # .gz: in the current directory (path = filename) the suffix test is sound
+    for ps in (0, 1, 4, 64):
+        out.append(open_mk(prop, "open-gz-cwd.%d" % ps, open_line(b"a.gz", 0, b"", ps, [F(b"a.gz", G, T)]), lineops))
+    out.append(open_mk(prop, "open-gz-cwd-subdir", open_line(b"s/t.gz", 0, b"", 4, [F(b"s/t.gz", G, T)]), lineops))
+    out.append(open_mk(prop, "open-gz-cwd-garbage", open_line(b"a.gz", 0, b"", 0, [F(b"a.gz", b"this is not a gzip stream\n")]), []))
+    out.append(open_mk(prop, "open-gz-cwd-empty-plain", open_line(b"a.gz", 0, b"", 0, [F(b"a.gz", _gz(b""), b"")]), ["getline", "get"]))
+    out.append(open_mk(prop, "open-dotgz-3chars", open_line(b".gz", 0, b"", 0, [F(b".gz", T)]), lineops))          # n = 3: not a gzip name
+    out.append(open_mk(prop, "open-notgz-GZ", open_line(b"a.GZ", 0, b"", 0, [F(b"a.GZ", T)]), lineops))
+    out.append(open_mk(prop, "open-notgz-gzx", open_line(b"a.gzx", 0, b"", 0, [F(b"a.gzx", T)]), lineops))
+    # .gz found through the directory list, directory names of 1 and 2 bytes: the read stays inside <filename>, never ".gz"
+    if not OPEN_STATE["uses_path"]:
+        out.append(open_mk(prop, "open-gz-env-dir1", open_line(b"a.gz", 2, b"a", 0, [F(b"a/a.gz", G, T)]), ["getline", "get"]))
+        out.append(open_mk(prop, "open-gz-env-dir2", open_line(b"a.gz", 2, b"d1", 0, [F(b"d1/a.gz", G, T)]), ["getline", "get"]))
+        out.append(open_mk(prop, "open-gz-env-dotgz", open_line(b".gz", 2, b"a", 0, [F(b"a/.gz", G, T)]), ["getline", "get"]))
+    # mode threshold through the natural path: eslBUFFER_SLURPSIZE bytes are slurped, one more is mmap'ed
+    S = OPEN_STATE["slurp"]
+    u64 = (b"seq0007  " + b"ACGT" * 16)[:62] + b"\r\n"
+    assert len(u64) == 64
+    if S % 64 == 0:
+        out.append(open_mk(prop, "open-big-slurpsize", open_line(b"big", 0, b"", 0, [F(b"big", u64, rep=S // 64)]), ["getline", "gettoken sep=20", "setoffset o=%d" % (S - 64), "getline", "getline", "getoffset"]))
+    for k in (5, 3, 7, 11, 13):
+        if (S + 1) % k == 0:
+            u = (b"ACGTACGTACGTACGT"[:k - 1] + b"\n")
+            out.append(open_mk(prop, "open-big-slurpsize+1", open_line(b"big", 0, b"", 0, [F(b"big", u, rep=(S + 1) // k)]), ["getline", "setoffset o=%d" % (S + 1 - k), "getline", "getline", "getoffset"]))
+            break
+    # known finding: found through a directory of >= 3 bytes, strcmp(filename+n-3, ".gz") starts behind the terminator of <filename>
+    if not OPEN_STATE["uses_path"]:
+        out.append(dict(open_mk(prop, "known-open-gz-suffix", open_line(b"a.gz", 2, b"dir", 0, [F(b"dir/a.gz", G, T)]), []), known_key=K_GZ))
+    else:
+        out.append(open_mk(prop, "reg-open-gz-suffix", open_line(b"a.gz", 2, b"dir", 0, [F(b"dir/a.gz", G, T)]), lineops))
+    return out
+
+
+OPEN_NAMES = [b"f", b"f", b"seq.fa", b"a.gz", b"a.gz", b".gz", b"x.gz", b"data.sto.gz", b"ab", b"abc", b"gz", b"q.GZ", b"s/t.gz", b"s/u", b"z.gzz", b"b.gz"]
+OPEN_SHORT = [b"a", b"b", b"d1", b"d2", b"..", b"x", b"b/"]       # <= 2 bytes: the suffix read stays inside <filename>
+OPEN_LONG = [b"dir", b"../e", b"../..", b"d1/x", b"nonexistent", b"long/er/dir", b"a/b", b"d2/"]
+
+
+def open_cases(prop, rng, quick, ctx=None):
+    if _os.environ.get("C05_NO_OPEN"): return []
+    _open_sync(ctx)
+    fixed = OPEN_STATE["uses_path"]
+    out = []
+    st = prop.stats.setdefault("open", {"cases": 0, "shape": {}, "status": {}, "via": {}, "gz_pipe": 0, "env": {}})
+    n = 220 if quick else 3000
+    for i in range(n):
+        name = rng.choice(OPEN_NAMES)
+        shape = rng.choice(["cwd", "cwd", "first", "second", "last", "several", "several", "nowhere", "cwd+env"])
+        envk = 2 if shape not in ("cwd", "nowhere") else rng.choice([0, 1, 2, 2])
+        # directory list: distinct names, no two spellings of one directory
+        pool = list(OPEN_SHORT + (OPEN_LONG if True else []))
+        rng.shuffle(pool)
+        pool = [d for j, d in enumerate(pool) if d.rstrip(b"/") not in [e.rstrip(b"/") for e in pool[:j]]]
+        dl = pool[:rng.choice([1, 2, 3, 4])]
+        src = prop.gen_input(rng) if rng.random() < 0.8 else prop.gen_edge_input(rng, rng.choice([1, 2, 4, 8]))
+        if len(src) > 3000: src = src[:3000]
+        isgzname = name.endswith(b".gz")
+        def content(b):
+            """(raw, plain): names ending in .gz mostly hold a real gzip stream"""
+            if isgzname and rng.random() < 0.85: return (_gz(b), b)
+            return (b, None)
+        files, hit = [], []
+        if shape in ("cwd", "cwd+env"): hit.append(None)
+        if shape in ("first", "cwd+env"): hit.append(0)
+        if shape == "second": hit.append(min(1, len(dl) - 1))
+        if shape == "last": hit.append(len(dl) - 1)
+        if shape == "several":
+            k0 = rng.randrange(len(dl))
+            hit += [k for k in range(k0, len(dl)) if k == k0 or rng.random() < 0.6]
+        envhits = [k for k in hit if k is not None]
+        if envhits and None not in hit and not fixed:
+            # known region C05:open:gz-suffix-indexes-filename: the directory that wins must be at most 2 bytes long
+            k0 = min(envhits)
+            if len(dl[k0]) > 2:
+                shorts = [d for d in OPEN_SHORT if d.rstrip(b"/") not in [e.rstrip(b"/") for e in dl]]
+                dl[k0] = rng.choice(shorts)
+        first = True
+        for k in hit:
+            raw, plain = content(src if first else b"decoy %d\n" % (k or 0))
+            first = False
+            files.append(((name if k is None else dl[k] + b"/" + name), raw, 1, plain))
+        # decoys: other names here and there
+        for _ in range(rng.randrange(0, 3)):
+            other = rng.choice([b"g", b"other.gz", name + b"x", b"s/v"])
+            d = rng.choice([None] + dl)
+            files.append(((other if d is None else d + b"/" + other), b"decoy\n", 1, None))
+        # the variable: the list, sometimes with empty elements / leading / trailing colon
+        parts = list(dl)
+        if rng.random() < 0.35:
+            for _ in range(rng.randrange(1, 3)): parts.insert(rng.randrange(len(parts) + 1), b"")
+        dirs = b":".join(parts)
+        if envk == 2 and shape in ("cwd", "nowhere") and rng.random() < 0.3: dirs = rng.choice([b"", b":", b"::"])
+        rng.shuffle(files)
+        seen, uniq = set(), []
+        for f in files:
+            if f[0] not in seen: seen.add(f[0]); uniq.append(f)
+        ps = rng.choice([0, 0, 0, 1, 2, 3, 4, 7, 16, 64, 4096])
+        line = open_line(name, envk, dirs, ps, uniq)
+        r = open_oracle(line)
+        if r["st"] == "fault": continue        # cannot happen (see above); never feed the known region
+        ops = []
+        if r["st"] == "ok":
+            ops = prop.gen_history(rng, r["src"], ps if ps > 0 else 512, rng.choice([3, 8, 20, 40]), stable=False)
+            for o in ops: prop.stats["ops"][o.split()[0]] = prop.stats["ops"].get(o.split()[0], 0) + 1
+        out.append(open_mk(prop, "fsopen%d.%s" % (i, shape), line, ops))
+        st["cases"] += 1
+        st["shape"][shape] = st["shape"].get(shape, 0) + 1
+        st["status"][r["st"]] = st["status"].get(r["st"], 0) + 1
+        st["via"][r.get("via")] = st["via"].get(r.get("via"), 0) + 1
+        st["env"][envk] = st["env"].get(envk, 0) + 1
+        if r.get("gz"): st["gz_pipe"] += 1
+    return out
+# END round4-open
+
+
 class C05(Prop):
     id = "C05"
     lean_modules = ["EaselModel.Props.C05"]
@@ -398,6 +696,7 @@ class C05(Prop):
         "unsafe_set_beyond_window", "fixed_setoffset_beyond_end_in_memory", "fixed_anchor_ahead_of_cursor", "fixed_rewind_before_anchor",
         "stable_ptr_valid_iff", "plain_anchor_no_promise")]
     theorems = theorems + MEM_THEOREMS   # round4-mem
+    theorems = theorems + OPEN_THEOREMS   # round4-open
     claimed = True
     level_text = ("Theorems (no bound on input, page size >= 1, or history length): every opener yields a well-formed window; buffer_refill preserves it and restores the page guarantee; "
                   "GetLine/FetchLine/FetchLineAsStr, GetToken/FetchToken/FetchTokenAsStr, Read each refine the abstract 'bytes + cursor' specification; "
@@ -405,6 +704,9 @@ class C05(Prop):
                   "history_mode_independent; history_no_fault (no out-of-bounds access, only OK/EOF/EOL); lines + terminators partition the input; re-read under an anchor (the very end of the input included); "
                   "readLines_eq_specLines: reading any input line by line on any opener yields exactly specLines src; get_prefix/get_all_in_memory; "
                   "stable_ptr_valid_quiet: pointers stay valid in the whole-input modes and on an exhausted stream. "
+                  "Round 4: history_total / history_total_no_fault for EVERY history on which the code defines the outcome (hypothesis CallerOk: no Set beyond the exposed bytes; anchors ahead of the cursor and rewinds before the anchor included; "
+                  "the window invariant and the simulation relation no longer assume anchor <= cursor); history_memory_exact: in the whole-input modes every history equals the total specification memRun; "
+                  "esl_buffer_Open/OpenFile/OpenPipe/Close: open_finds_iff (cwd first, then the first listed directory), openFile_mode_spec (mode = function of size and threshold), open_semantics_mode_independent, close_releases_exactly_once, asStr_nul_terminated. "
                   "The hand-written model is tied to the working tree by an exact differential run (6 modes x 11 page sizes, histories <= 200 ops, ASan+UBSan) and the implementation is "
                   "monitored against the specification per operation; any difference is a concrete failing (input, mode, page size, history).")
     level_note = ("Partial on one clause: 'pointers handed out under a stable anchor stay valid' is false of the code (buffer_refill reallocates; known finding C05:stable-anchor:realloc-in-refill, "
@@ -428,10 +730,15 @@ class C05(Prop):
                    "UNDEFINED BY DOCUMENTATION 4: esl_buffer_RaiseAnchor(offset) outside the window or before the active anchor trips ESL_DASSERT1 in a debug build (eslDEBUGLEVEL >= 1); the model is the non-debug build, where it is a defined no-op",
                    "every other call of the 14 operations is total in the model exactly as in the code (compared exactly on contract-violating histories): SetAnchor/SetStableAnchor outside the window and SetOffset beyond the end or to an unloaded unprotected offset answer eslEINVAL; anchors ahead of the cursor and rewinds before the anchor are handled (b86a62d)",
                    "history_spec / history_mode_independent keep the API contract Valid as hypothesis: outside it results legitimately depend on what is loaded (page size, mode); history_total (no contract) describes them by the relation Total",
-                   "esl_buffer_Open (environment search, .gz detection) and esl_buffer_Close are not modelled; mmap/popen/gzip are OS behaviour, modelled as 'delivers the bytes'"]
+                   "esl_buffer_Open/OpenFile/OpenPipe/Close decision logic is modelled over a parameter file system (finite map path -> bytes) and environment (OpenFile.lean) and tied with real temp files + setenv (op fsopen); "
+                   "mmap/popen/gzip/fstat themselves are OS behaviour, modelled as 'delivers the bytes' (gunzip is a parameter); '-' (stdin) is modelled but not tied (stdin is the harness's protocol channel); "
+                   "the st_blksize clamp is tied only at the sandbox's block size (4096), otherwise held by the regenerated constants (OpenConsts.lean); allocation/popen/fstat failures not modelled",
+                   "known genuine defects (see known_findings.d/C05.json): stable-anchor realloc (redesign-size fix proposed: C05-stable-anchor-keep-oldmem.patch), esl_buffer_Open .gz test indexes filename with strlen(path) (C05-open-gz-suffix.patch), Read of 0 bytes on an empty slurped file = memcpy(p, NULL, 0) (C05-read-zero-bytes-null-mem.patch)"]
     level_text = level_text + " " + MEM_LEVEL_TEXT; assumptions = assumptions + MEM_ASSUMPTIONS; trusted_base = trusted_base + MEM_TRUSTED   # round4-mem
     rule = ("case = one opening (mode, page size, input bytes) + a history of <= 200 operations valid under the API contract, generated by simulating the abstract specification; "
             "the same (input, history) is run under 3 configurations; non-trivial = at least one operation returned bytes; distinct by implementation output trace")
+
+    def generated(self, ctx): return open_generated(ctx)   # round4-open
 
     # ------------------------------------------------------------------ inputs
     def gen_edge_input(self, rng, ps):
@@ -605,6 +912,7 @@ class C05(Prop):
                 out.append(self.mk("reg-stable-anchor-ahead-of-cursor.%s.%d" % (m, ps), W, m, ps, ["setstable o=%d" % min(ps, 2), "get", "read k=5", "getline", "raise o=%d" % min(ps, 2), "getline"], nomonitor=True))
                 out.append(self.mk("reg-rewind-before-anchor.%s.%d" % (m, ps), W, m, ps, ["setanchor o=0", "read k=3", "raise o=0", "setanchor o=3", "setoffset o=2", "read k=6", "getoffset", "raise o=3", "getline"], nomonitor=True))
         out += mem_corpus()   # round4-mem
+        out += open_corpus(self, ctx)   # round4-open
         return out
 
     def gen_wild(self, rng, src, nops, raw=False):
@@ -676,6 +984,7 @@ class C05(Prop):
                     out.append(self.mk("wild%d.%s.%d" % (i, m, ps), wsrc, m, ps, wops, nomonitor=True, wild=True))
                     self.stats["wild_cases"] += 1
                     for o in wops: self.stats["ops"][o.split()[0]] = self.stats["ops"].get(o.split()[0], 0) + 1
+        out += open_cases(self, rng, quick, ctx)   # round4-open
         out += mem_cases(rng, quick); self.stats["mem"] = mem_stats(out)   # round4-mem
         return out
 
@@ -719,6 +1028,8 @@ class C05(Prop):
 
     def monitor(self, ctx, case, out):
         if case.get("mem"): return mem_monitor(case, out)   # round4-mem
+        r4 = open_monitor(self, case, out)        # round4-open
+        if r4 is not NotImplemented: return r4    # round4-open
         if case.get("wild"):
             # outside the contract: only the documented statuses (eslEINVAL for a refused SetOffset/SetAnchor), never an internal error
             for i, (op, l) in enumerate(zip(case["ops"][1:], out[1:]), 1):
